@@ -16,3 +16,13 @@ PROPS = {
     "C05": P("w1", quick_runs=4000, thorough_runs=300000, quick_budget_s=100, thorough_budget_s=1500,
              assumptions=["flush-on-ack (default) mode", "topics are not deleted in this world"]),
 }
+
+NA = {
+    "C23": "Authorizer.Allows is a pure function of (config, principal, action, resource, name): no schedule, clock, I/O or fault for a simulator to control (its semantics are exercised inside the C24 oracle only)",
+    "C29": "pure encode/decode/detect functions in three languages (two not Go): nothing to schedule or fault",
+    "C35": "sql.Parse(string) is a pure function: no schedule, clock, I/O or fault",
+    "C39": "BuildClusterMetadata / bucket-name derivation are pure functions of the spec",
+    "C45": "ExplodeXML([]byte, cfg) is a pure function",
+}
+# properties designed but whose check is not built yet are listed as not claimed until their check exists
+PENDING = {}
